@@ -88,4 +88,26 @@ PROPS = {
             'TrapSet::enter_subshell (the loop choosing the option per signal) is not under contract',
         ],
     },
+    'C01': {
+        'v_units': ['split'],
+        'k_units': [],
+        'level': 'proof',
+        'explanation': (
+            'Kernel only. Verus proves that the field-splitting iterator (yash-env/src/semantics/expansion/split/ranges.rs, '
+            'Ranges::next, extracted on every run) yields, for inputs of ANY length and any IFS, exactly the fields of a '
+            'reference splitter written from XCU 2.6.5 (runs of IFS white space merge into one delimiter together with at most one '
+            'other IFS character, every further non-white-space IFS character delimits an empty field, leading/trailing IFS white '
+            'space is ignored, no empty field arises otherwise), and that Ifs::classify_attr / classify treat a character as a '
+            'separator only if it is an unquoted result of an expansion. Not decided here: the parameter-expansion modifiers, '
+            'nounset, "$@"/$* joining (Phrase::append / ifs_join), quote removal, the read built-in, the lexer -- all of which '
+            'run through async code over Env or through Vec::drain/extend forms outside the verifier\'s subset; a change there is '
+            'not seen by this check.'),
+        'trusted_base': ['Verus 0.2026.09.13 + Z3', 'vstd iterator model (IteratorSpec: prophetic remaining())', '/verif/tools/vextract.py'],
+        'assumptions': [
+            'membership of a character in IFS / in its non-white-space part (str::contains) is uninterpreted: Ifs::is_ifs and is_ifs_non_whitespace are external_body',
+            'the inner character iterator obeys vstd\'s iterator laws (a precondition of the contract)',
+            'Iterator::next for Ranges is checked as an inherent method with the same body (impl header replaced)',
+            'the reference splitter (contracts/v/split/prelude.rs) is the reading of XCU 2.6.5 the contract is stated against',
+        ],
+    },
 }
